@@ -6,7 +6,7 @@
 set -u
 cd "$(dirname "$0")/.."
 out=seeded/matrix.txt
-: > $out
+: > $out   # (a partial run overwrites the file: copy it first if you want to keep the full matrix)
 for d in ${@:-seeded/C*}; do d=$(realpath $d)
     id=$(basename $d)
     [ -f $d/patch.diff ] || continue
